@@ -546,12 +546,9 @@ func EVAL(ctx context.Context, ast MalType, env EnvType) (res MalType, e error) 
 					if err != nil {
 						return nil, err
 					}
-					ast, err = do(ctx, catchDo, 0, 0, new_env)
-					if err != nil {
-						return nil, err
-					}
-					env = new_env
-					continue
+					// the handler's value is the value of the try form: return it as it is
+					// (looping would evaluate it a second time, and in the handler's scope)
+					return do(ctx, catchDo, 0, 0, new_env)
 				}
 				return nil, e
 			}
